@@ -410,31 +410,42 @@ func runC02(w *World, r *Report, tier string) {
 		} else {
 			r.Ok("R4", fk+"#progress", "every cycle passes through Token; its error leaves the function")
 		}
-		// end detection: the only nil return is under tt == start.End()
+		// end detection: a return that can report success (nil, or an error value not known to be non-nil) happens only
+		// on a path that has seen this element's own end tag: tt == start.End()
 		endOK := true
+		endWhere := ""
 		nNil := 0
-		allInstrs(fn, func(in ssa.Instruction) {
-			ret, ok := in.(*ssa.Return)
-			if !ok || !isNilConst(ret.Results[0]) {
+		isEndCmp := func(cv ssa.Value, truth bool) bool {
+			bo, ok := cv.(*ssa.BinOp)
+			if !ok || bo.Op != token.EQL || !truth {
+				return false
+			}
+			isEnd := func(v ssa.Value) bool {
+				c, ok := rvAny(v).(*ssa.Call)
+				return ok && w.callKey(c) == "encoding/xml.StartElement.End"
+			}
+			return isEnd(bo.X) || isEnd(bo.Y)
+		}
+		if err := walkPaths(entryLoc(fn), nil, nil, 100000, func(path []ssa.Instruction, end pathEnd) {
+			ret, ok := path[len(path)-1].(*ssa.Return)
+			if !ok || end == endCycle || len(ret.Results) != 1 {
 				return
 			}
-			nNil++
-			guard := edgesAsserting(fn, func(cv ssa.Value, truth bool) bool {
-				bo, ok := cv.(*ssa.BinOp)
-				if !ok || bo.Op != token.EQL || !truth {
-					return false
+			res := rres(path, ret)[0]
+			if !isNilConst(res) {
+				if te.errorReturn(ret, path) {
+					return
 				}
-				isEnd := func(v ssa.Value) bool {
-					c, ok := v.(*ssa.Call)
-					return ok && w.callKey(c) == "encoding/xml.StartElement.End"
-				}
-				return isEnd(bo.X) || isEnd(bo.Y)
-			})
-			if len(guard) == 0 || reachable(entryLoc(fn), func(x ssa.Instruction) bool { return x == in }, nil, guard) {
-				endOK = false
 			}
-		})
-		r.Check(endOK && nNil > 0, "R3", fk+"#end-detection", w.pos(fn.Pos()), "the loop can report success without having seen this element's own end tag (tt == start.End())", "nil only on tt == start.End()")
+			nNil++
+			if !pathAsserts(path, isEndCmp) {
+				endOK = false
+				endWhere = w.ipos(ret) + " returning " + w.nfOn(res, path)
+			}
+		}); err != nil {
+			endOK = false
+		}
+		r.Check(endOK && nNil > 0, "R3", fk+"#end-detection", w.pos(fn.Pos()), "the loop can report success without having seen this element's own end tag (tt == start.End()): "+endWhere, "nil only on tt == start.End()")
 	}
 	if nLoops < 11 {
 		r.Undecided("R3", "stanza#token-loops", "-", fmt.Sprintf("%d hand-written token loops found, 11 confirmed by hand", nLoops))
